@@ -5,7 +5,7 @@ from props import _design as D
 from props._design import describe, nontrivial, unsupported, prepare, impl_obs, CASE_TIMEOUT  # noqa: F401
 
 ID = "C09"
-PROP_FILES = ["Properties/C09.v"]
+PROP_FILES = ["Properties/C09.v", "Properties/C09_subtracted.v"]
 THEOREMS = ["C09_drop_is_filter", "C09_error_iff", "C09_pass_keeps_rows", "C09_bad_policy"]
 ASSUMPTIONS = ["under 'pass' missing values occur in numeric variables only and calls are pointwise"]
 RULE = ("random formulas (variables inside calls, interactions, group terms, response) x missingness patterns over "
@@ -62,6 +62,14 @@ def gen(rng, tier):
             # an index with repeated / unordered labels: rows are dropped by POSITION, never by label
             fr["index"] = rng.choice([[j % 3 for j in range(nrows)], [f"s{j // 2}" for j in range(nrows)],
                                       [(j * 7 + 3) % nrows if nrows % 7 else (j * 5 + 3) % nrows for j in range(nrows)]])
+        if rng.random() < 0.15:
+            # an ordered categorical that declares a category nobody is in (not the last one): the declaration is part of
+            # the data, with or without the incomplete rows
+            for c in fr["columns"]:
+                if c["name"] == "o":
+                    cats = list(c["categories"])
+                    cats.insert(rng.randrange(0, len(cats)), "never")
+                    c["categories"] = cats
         fml = _formula(rng, na == "pass")
         if rng.random() < 0.3:
             import re as _re
